@@ -241,7 +241,9 @@ func (u *staticUpstream) From() string {
 }
 
 func (u *staticUpstream) NewHost(host string) (*UpstreamHost, error) {
-	if !strings.HasPrefix(host, "http") &&
+	// (a host that is merely named httpd or http-api has no scheme)
+	if !strings.HasPrefix(host, "http://") &&
+		!strings.HasPrefix(host, "https://") &&
 		!strings.HasPrefix(host, "unix:") &&
 		!strings.HasPrefix(host, "quic:") &&
 		!strings.HasPrefix(host, "srv://") &&
